@@ -267,6 +267,65 @@ CHECKS.append({
             "modelled; assumes CPython iterates a set of small non-negative ints in ascending order.",
 })
 
+CHECKS.append({
+    "property_id": "C01",
+    "category": "proof",
+    "technique": "Lean 4 proofs of the verified model checker, the reference DPLL / projected enumerator, the blocking-clause "
+                 "and 1-UIP resolution lemmas + per-run correspondence with an executable line-by-line CDCL mirror",
+    "text": "evalCnf_iff / evalCnf_models (the checker accepts exactly the total assignments making every clause and every "
+            "assumption true), pairwiseDistinct_iff / distinctB_iff, dpll_sat_iff, dpll_models_complete, distinct_of_blocked, "
+            "resolve_sound, learn_chain_sound, entailsB_iff. On every explored input every assignment solve_sat returns "
+            "(solution and each entry of solutions) is accepted by evalCnf and the tuple by distinctB; the Cdcl mirror "
+            "(watches, binary implications, Float VSIDS, heap, Luby, reduce_db, blocking clauses) must return the same status "
+            "and assignments in the same order, and every learned clause it logs is checked entailed.",
+    "note": "[S] cdcl_returns_models (soundness of the CDCL search for ALL inputs) is NOT proved: the all-input theorems cover "
+            "the oracle layer (checker, DPLL, enumerator, resolution); the CDCL loop is mirrored and compared per input. "
+            "Known finding: a formula of empty clauses only is answered {} (pinned by an existing test). Excluded: literal 0, "
+            "solution_limit < 1.",
+})
+CHECKS.append({
+    "property_id": "C02",
+    "category": "proof",
+    "technique": "Lean 4 proofs: reference DPLL verdict exact (sat and unsat), Luby schedule of the regenerated source proved "
+                 "terminating and equal to the Luby sequence; per-run comparison of every verdict with the proved DPLL, "
+                 "return-within-limit observed per call, CDCL mirror correspondence",
+    "text": "dpll_sat_iff, dpll_unsat_iff, luby_pos, luby_pow2, luby_fuel, luby_is_luby (about the loop translated from "
+            "sat.py on every run), learn_chain_sound, entailsB_iff. INFEASIBLE and model verdicts of solve_sat are compared "
+            "with the proved-exact DPLL on every input; MAX_ITER on a satisfiable input of <= 16 variables with default "
+            "budgets is a failure; every call must return within its limit (timeouts re-run alone); the mirror's fuel use is "
+            "measured against the budget-derived bound.",
+    "note": "[S] cdcl_infeasible_sound and cdcl_fuel_suffices (bounded work as a for-all theorem) are NOT proved: termination is "
+            "observed per call and measured on the mirror. Same known finding as C01.",
+})
+CHECKS.append({
+    "property_id": "C05",
+    "category": "proof",
+    "technique": "Lean 4 proofs of the CP semantics evaluator, the exhaustive enumerator and the DFS mirror (propagators sound, "
+                 "leaf check, complete search) + verified evaluation of every assignment Model.solve returns",
+    "text": "check_decides, solutions_complete, propagator_sound, propagate_sound, dfs_leaf_needs_check (the unrepaired leaf "
+            "rule is wrong: witnesses by decide), dfs_returns_solutions, dfs_complete, dfs_infeasible_iff, "
+            "choose_solver_total. Every assignment returned by Model.solve (auto / dfs / sat, limits 1 / 3 / 100, hints, "
+            "unnamed variables, empty domains) is evaluated by the verified evaluator of Cp.Sem; INFEASIBLE is judged against "
+            "the verified exhaustive enumerator; the back-ends must agree on satisfiability.",
+    "note": "Hints are treated as hard restrictions; failures caused purely by solve_sat are classed sat_backend:*; the DFS "
+            "value order (CPython set iteration) is not modelled (solution sets only).",
+})
+CHECKS.append({
+    "property_id": "C06",
+    "category": "proof",
+    "technique": "Lean 4 proof that the encoder mirror is exact for every constraint kind (encode_model_exact) + proved "
+                 "projected all-models enumerator run on the clause list captured from the real encoder + literal clause-list "
+                 "correspondence",
+    "text": "encode_vars_decode, enc_all_different, enc_eq_const, enc_ne_const, enc_eq_var, enc_ne_var, enc_no_overlap, "
+            "enc_cumulative, enc_linear, enc_sum_eq / le / ge, enc_circuit, encode_compositional, encode_model_exact (the "
+            "decoded models of the emitted CNF are exactly the CP solutions, every kind, empty domains included), "
+            "enumProj_spec. The clause list captured at solve_sat is enumerated by the proved enumerator and must decode to "
+            "exactly the Cp.Sem solutions with one in-domain value per variable, and must equal Cp.Encode's output as a "
+            "multiset of sorted clauses.",
+    "note": "cumulative exactness assumes demands and capacity >= 0 (generator stays inside); the mirror follows the repaired "
+            "encoder (six C05/C06 fix commits).",
+})
+
 _PENDING = "check not built yet in this round (planned in DESIGN.md §4); no claim made"
 NOT_APPLICABLE = [
     {"property_id": f"C{i:02d}", "reason": _PENDING}
